@@ -90,7 +90,11 @@ for _pid, _unit in (("C13", "mini"), ("C19", "peano")):
 PROPS["C17"] = dict(
     model="gen/RelRegex.v (regenerated)",
     gens=[gens.gen_rels],
-    harness=[dict(name="main", n_quick=70, n_thorough=400, shards_quick=1, shards_thorough=6, coq=False, timeout=2400)],
+    harness=[dict(name="main", n_quick=70, n_thorough=400, shards_quick=1, shards_thorough=6, coq=False, timeout=2400),
+             # exhaustive small scope (all expressions with <= 4 nodes, 5 in the thorough tier, every relation, strings <= 2):
+             # the failing-input search when a proof over the regenerated relation bodies breaks; always run in the thorough tier
+             dict(name="sweep", mode="sweep", when="proof_failed", n_quick=1, n_thorough=1, shards_quick=16, shards_thorough=16,
+                  coq=False, timeout=3000)],
     trusted=_GOMINI_TRUSTED + ["the translator harness/cmd/genrels; regular expressions are encoded by constructor (EmptySet/EmptyStr/Char/Or/Concat/Star), which is unification-equivalent to the 4-field Go struct for values built by the package's constructor functions",
                               "the harness's direct Brzozowski matcher and language-equivalence check (bisimulation on ACI-normalised derivatives, bounded) used as oracle"],
     assumptions=["alphabet {a,b}; ground regular expressions"],
